@@ -297,7 +297,14 @@ pub fn run(h: &WHist, reach: &mut BTreeMap<&'static str, u64>) -> Option<(String
                 let live = |k: &usize| insts[*k].filling.is_some();
                 let sure = m_queue.iter().filter(|(k, (_, r))| live(k) && *r == Reg::Sure).map(|(_, (t, _))| *t).min();
                 let any = m_queue.iter().filter(|(k, _)| live(k)).map(|(_, (t, _))| *t).min();
-                let ok = got == sure.map(at) || got == any.map(at);
+                // any subset of the stale registrations may still be there: the
+                // answer is the earliest certain entry, or a stale live one
+                // that is not later
+                let ok = got == sure.map(at)
+                    || m_queue
+                        .iter()
+                        .filter(|(k, (_, r))| live(k) && *r == Reg::Maybe)
+                        .any(|(_, (t, _))| got == Some(at(*t)) && sure.is_none_or(|s| *t <= s));
                 if !ok {
                     return Some((
                         "next-wake-time".into(),
